@@ -515,9 +515,15 @@ func (c *Compiler) mapKeyCode(typ *runtime.Type) (Code, error) {
 	}
 	switch typ.Kind() {
 	case reflect.Ptr:
-		return c.ptrCode(typ)
+		// a pointer is a key only through the text its pointee marshals to
+		// (encoding/json refuses every other pointer key: its text would not be a string)
+		if typ.Implements(marshalTextType) {
+			return c.ptrCode(typ)
+		}
 	case reflect.String:
-		return c.stringCode(typ, false)
+		// every string type is written as a string here, json.Number as well: an object
+		// key is never a number literal
+		return &StringCode{typ: typ, isKey: true}, nil
 	case reflect.Int:
 		return c.intStringCode(typ)
 	case reflect.Int8:
